@@ -625,6 +625,9 @@ if __name__ == "__main__":
     if os.environ.get("VERIF_HOLDS_REPO_LOCK") == "1":
         sys.exit(main())
     os.makedirs(CACHE, exist_ok=True)
-    with open(os.path.join(CACHE, "repo.lock"), "w") as _lk:
+    # writer-preferring: a waiting tools/mutate.py holds the gate, so new checks queue behind it
+    with open(os.path.join(CACHE, "gate.lock"), "w") as _gate, open(os.path.join(CACHE, "repo.lock"), "w") as _lk:
+        fcntl.flock(_gate, fcntl.LOCK_EX)
         fcntl.flock(_lk, fcntl.LOCK_SH)
+        fcntl.flock(_gate, fcntl.LOCK_UN)
         sys.exit(main())
